@@ -220,6 +220,11 @@ def r3(tree, rep):
 
 
 def run(tree, rep, tier):
+    # R4: the flow-control calls Inbound / Outbound / Manager make on the peer connection exist on the class of the object they are given
+    from .. import interfaces
+    n_sites = interfaces.check(tree, rep, "C15.R4", ["Inbound", "Outbound", "Manager", "SubChannel"])
+    if n_sites < 20:
+        raise AnalysisError("interface agreement: only %d resolvable call sites in the dilation data plane" % n_sites)
     from .. import sharedstate
     sharedstate.check(tree, rep, "C15.R0")
     r1(tree, rep)
@@ -245,3 +250,7 @@ REWRITES = [
     Rewrite("pause-move-reordered", OUT, "                self._unpaused_producers.remove(p)\n                self._paused_producers.add(p)\n                p.pauseProducing()",
             "                self._paused_producers.add(p)\n                self._unpaused_producers.remove(p)\n                p.pauseProducing()", desc="add before remove"),
 ]
+
+MUTANTS.append(Mutant("connection-without-pauseProducing", "src/wormhole/_dilation/connection.py",
+                      "    def pauseProducing(self):\n        self.transport.pauseProducing()\n\n", "", "C15.R4",
+                      "F12 again: Inbound calls a method the connection class does not define"))
